@@ -4099,6 +4099,11 @@ func (a *Association) getDataPacketsToRetransmit(budgetScaled *int64, consumed *
 			continue
 		}
 
+		if chunkPayload.abandoned() {
+			// given up after it was marked: the peer is told to skip it (FORWARD-TSN), it must not be sent again
+			continue
+		}
+
 		if i == 0 && int(a.RWND()) < len(chunkPayload.userData) {
 			// allow as zero window probe
 		} else if bytesToSend+len(chunkPayload.userData) > int(awnd) {
